@@ -246,3 +246,19 @@ def replay_finalize_depth(c, depth):
     out = w.expand(doc)
     bad = any(ord(ch) >= 0x100000 for ch in out) or ("".join(_nowiki_map.get(ch, ch) for ch in c) not in out and c != "")
     return ("expand(" + repr(doc) + ")", bad, f"result {out!r}: placeholder character left / nowiki body not recoverable")
+
+
+# ---------------------------------------------------------------- parse side, end to end
+def parse_text_only(doc: str, L: int) -> bool:
+    """parse('<nowiki>c</nowiki>') yields text only, and that text is the quoted c (quoted exactly once: it decodes back to c)"""
+    c = doc[8 : 8 + L]
+    _fresh_page()
+    root = ctx.parse(doc)
+    kids = root.children
+    if not all(isinstance(k, str) for k in kids):
+        return False
+    return "".join(kids) == "".join(_nowiki_map.get(ch, ch) for ch in c)
+
+
+def replay_parse_text_only(doc, L):
+    return _api_nowiki(doc[8 : 8 + L])
